@@ -193,8 +193,31 @@ def check_request(ctx, seed, k):
                         if ok and (chain or isinstance(ep[-1], int)):
                             return True
                     return False
-                known = all('still_running' in pr and all(abandoned_after_sync_error(p) for p in pr['still_running']) for pr in problems)
-                ctx.violation("mutation-fields-overlap" + (":background-work-after-synchronous-sibling-error" if known else ""),
+                def abandoned_after_list_source_error(p):
+                    # the list's own source raised while it was being iterated (complete_list_value /
+                    # complete_async_iterator_value): the completions of the items already taken are handed to
+                    # settle_in_background and the error bubbles up at once
+                    for e in res.errors or []:
+                        ep = list(e.path or [])
+                        if ep and len(p) > len(ep) and p[:len(ep)] == ep and isinstance(p[len(ep)], int) \
+                                and str(e.message).startswith('source-raise@'):
+                            return True
+                    return False
+                kinds = set()
+                for pr in problems:
+                    for p in pr.get('still_running') or [None]:
+                        if p is not None and abandoned_after_sync_error(p):
+                            kinds.add('sync')
+                        elif p is not None and abandoned_after_list_source_error(p):
+                            kinds.add('list')
+                        else:
+                            kinds.add('other')
+                known = 'other' not in kinds
+                suffix = ""
+                if known:
+                    suffix = (":background-work-after-list-source-error" if 'list' in kinds
+                              else ":background-work-after-synchronous-sibling-error")
+                ctx.violation("mutation-fields-overlap" + suffix,
                               {"source": src[:600], "problems": problems[:2], "trace": sched.trace[:12],
                                "errors": [(e.message[:60], e.path) for e in res.errors or []][:3]}, case)
                 return
